@@ -27,9 +27,11 @@ MNext ==
         c.hn[i] = "none" /\ (\E j \in 1..Len(c.phs) : c.phs[j].on = i /\ c.phs[j].k = "finish") /\ Step(EnvHello(c, i, n), <<"hello", n>>)
   \/ Step(Progress(c), <<"progress">>)
   \/ \E i \in 1..N(c) : Step(EnvClose(c, i), <<"close", IF c.st[i] = "connected" THEN "session" ELSE "early">>)
+  \/ \E i \in 1..N(c) : c.st[i] # "closed" /\ HasIO(c, i) /\ Step(EnvDiscReq(c, i), <<"close", "discreq">>)
   \/ \E i \in 1..N(c) : c.st[i] # "closed" /\ HasIO(c, i) /\ i \notin c.wf /\ Step(EnvWriteFail(c, i), <<"writefail">>)
   \/ \E i \in c.wf : Step(EnvReset(c, i), <<"reset">>)
   \/ \E i \in 1..N(c) : Step(DiscEnd(c, i), <<"discend">>)
+  \/ \E i \in 1..N(c) : Step(DiscProceed(c, i), <<"i">>)
   \/ /\ GenMode /\ ~fin /\ Len(hist) >= 2 /\ fin' = TRUE /\ UNCHANGED <<c, k, hist>>
      /\ PrintT(<<"SCHED", ToJson(<<c.hook, hist>>)>>)
 MSpec == MInit /\ [][MNext]_mvars
